@@ -34,6 +34,8 @@ pub struct Ctx {
     pub other_prop_samples: Vec<J>,
     pub deviations: u64,
     pub diag_checked: u64,
+    pub rel_fwd: std::collections::HashMap<String, String>,
+    pub rel_bwd: std::collections::HashMap<String, String>,
     pub deviation_samples: Vec<J>,
     pub model_dev: u64,
     pub model_dev_samples: Vec<J>,
@@ -83,6 +85,8 @@ impl Ctx {
             other_prop_samples: vec![],
             deviations: 0,
             diag_checked: 0,
+            rel_fwd: Default::default(),
+            rel_bwd: Default::default(),
             deviation_samples: vec![],
             model_dev: 0,
             model_dev_samples: vec![],
@@ -785,6 +789,23 @@ pub fn run_session(ctx: &mut Ctx, v: &J) {
                     }
                 }
                 handed.push((el.clone(), ol.clone(), i));
+                // ... and ACROSS sessions: the specification's bytes and the crate's bytes are in one-to-one correspondence
+                // ("any change to the AAD, the payload or a protected header changes the bytes handed over")
+                let (ek, ok) = (el.to_string(), ol.to_string());
+                if let Some(prev) = ctx.rel_fwd.get(&ek) {
+                    if *prev != ok {
+                        ctx.mismatch(&sp, v, "same-inputs-handed-different-bytes", json!({"step": i, "event": e}));
+                        return;
+                    }
+                }
+                if let Some(prev) = ctx.rel_bwd.get(&ok) {
+                    if *prev != ek {
+                        ctx.mismatch(&sp, v, "different-inputs-handed-the-same-bytes", json!({"step": i, "event": e, "crate_bytes": ol}));
+                        return;
+                    }
+                }
+                ctx.rel_fwd.insert(ek.clone(), ok.clone());
+                ctx.rel_bwd.insert(ok, ek);
             }
         } else if !bytes_list_equiv(&ex["cb"], &o["cb"], slotfree) {
             ctx.mismatch(&sp, v, "closure-arguments-differ", json!({"step": i, "event": e, "want": ex["cb"], "got": o["cb"]}));
